@@ -164,6 +164,14 @@ def recursive_resolution(rep, F):
         if not f.file.endswith("macros.rs"):
             continue
         bodies = [f] + [g for g in F.fns.values() if (g.d.get("closure_of") or "").startswith(f.key)]
+        # a closure that makes the recursive call is run once per node only when the iterator it is given to is driven to its end: a consumer
+        # that may stop early (`all`, `any`, `find`, `try_fold`, `take_while`, ...) leaves the nodes after the first failure unresolved
+        SHORT = ("all", "any", "find", "find_map", "position", "rposition", "try_fold", "try_for_each", "take_while", "map_while", "scan", "take", "nth", "step_by")
+        has_rec_closure = any(ck and ck.endswith("::parse_representation_recursive") for g in bodies if g is not f for bb, t, ck, fr in g.calls())
+        early = sorted({ck.split("::")[-1] for bb, t, ck, fr in f.calls() if ck and "Iterator" in ck and ck.split("::")[-1] in SHORT})
+        if has_rec_closure:
+            rep.check(not early, "recursion-unconditional", "%s:consumer" % short(f.key), "the iterator that runs the recursive resolution closure is consumed by a method that may stop "
+                      "early (%s): after one node fails to resolve, later nodes of the collection are left unresolved" % ", ".join(early), site=f.span)
         loops = f.natural_loops()
         litems = list(loops.items() if isinstance(loops, dict) else loops)
         for g in bodies:
